@@ -141,9 +141,17 @@ def nwRows (S : Matrix) (gapOpen : Int) (r q : List Nat) : List (List Cell) :=
   let r0 := nwRow0 S gapOpen q
   r0 :: fillRows (nwFirst S gapOpen) (nwCell S gapOpen) q true r0 r
 
+/-- the table of `NWAffine` after the fill -/
+def nwTable (S : Matrix) (gapOpen : Int) (r q : List Nat) : Table :=
+  mkTable (q.length + 1) (nwRows S gapOpen r q)
+
 def fitRows (S : Matrix) (gapOpen : Int) (r q : List Nat) : List (List Cell) :=
   let r0 := nwRow0 S gapOpen q
   r0 :: fillRows fitFirst (nwCell S gapOpen) q true r0 r
+
+/-- the table of `FittedAffine` after the fill -/
+def fitTable (S : Matrix) (gapOpen : Int) (r q : List Nat) : Table :=
+  mkTable (q.length + 1) (fitRows S gapOpen r q)
 
 /-! ### SWAffine recurrences -/
 
@@ -164,6 +172,10 @@ def swFirst (_isFirst : Bool) (_prevFirst : Cell) (_x : Nat) : Cell := zeroCell
 def swRows (S : Matrix) (gapOpen : Int) (r q : List Nat) : List (List Cell) :=
   let r0 := List.replicate (q.length + 1) zeroCell
   r0 :: fillRows swFirst (swCell S gapOpen) q true r0 r
+
+/-- the table of `SWAffine` after the fill -/
+def swTable (S : Matrix) (gapOpen : Int) (r q : List Nat) : Table :=
+  mkTable (q.length + 1) (swRows S gapOpen r q)
 
 /-- `maxS, maxI, maxJ` of `SWAffine` after the fill: the cells are visited in row-major order
     and a cell replaces the current best when `score > 0 && score >= maxS`
@@ -276,7 +288,7 @@ def tbLoop (sw : Bool) (t : Table) (S : Matrix) (gapOpen : Int) (r q : List Nat)
         let pv := vget ((predOf t st.i st.j mv).get pl)
         tbLoop sw t S gapOpen r q R C fuel (st.move (st.i = R ∧ st.j = C) mv pl v pv)
 
-def total (ps : List Pair) : Int := (ps.map (·.score)).foldl (· + ·) 0
+def total (ps : List Pair) : Int := (ps.map (·.score)).sum
 
 /-! ### the three `alignType` bodies on legal, non-empty letters -/
 
@@ -285,7 +297,7 @@ def total (ps : List Pair) : Int := (ps.map (·.score)).foldl (· + ·) 0
 def nwAlignT (S : Matrix) (gapOpen : Int) (r q : List Nat) : Except Err (List Pair × Bool) :=
   let R := r.length
   let C := q.length
-  let t := mkTable (C + 1) (nwRows S gapOpen r q)
+  let t := nwTable S gapOpen r q
   let e := t.at R C
   let layer : Kind := if vgt e.u e.d then (if vgt e.l e.u then .l else .u)
                       else (if vgt e.l e.d then .l else .m)
@@ -306,9 +318,8 @@ def nwAlign (S : Matrix) (gapOpen : Int) (r q : List Nat) : Except Err (List Pai
 def swAlignT (S : Matrix) (gapOpen : Int) (r q : List Nat) : Except Err (List Pair × Bool) :=
   let R := r.length
   let C := q.length
-  let rows := swRows S gapOpen r q
-  let t := mkTable (C + 1) rows
-  let (_, mi, mj) := swBest rows
+  let t := swTable S gapOpen r q
+  let (_, mi, mj) := swBest (swRows S gapOpen r q)
   match tbLoop true t S gapOpen r q R C (mi + mj)
       { i := mi, j := mj, layer := .m, last := .m, score := 0, maxI := mi, maxJ := mj, aln := [] } with
   | .error e => .error e
@@ -329,7 +340,7 @@ def fitEnd (t : Table) (C : Nat) : Nat → Nat → (Nat × V) → Nat
 def fitAlignT (S : Matrix) (gapOpen : Int) (r q : List Nat) : Except Err (List Pair × Bool) :=
   let R := r.length
   let C := q.length
-  let t := mkTable (C + 1) (fitRows S gapOpen r q)
+  let t := fitTable S gapOpen r q
   let i := fitEnd t C R 1 (0, none)
   match tbLoop false t S gapOpen r q R C (i + C)
       { i := i, j := C, layer := .m, last := .m, score := 0, maxI := i, maxJ := C, aln := [] } with
